@@ -123,6 +123,14 @@ RowSat(a) ==
             THEN "applicable_iff_sat.alone_optional.cls" \o ToString(CHOOSE c \in 1..NC :
                      LET da == Tab.rows[a].dispatch_alone IN
                      da[c] # "skip" /\ ((Sat(a, c) /\ da[c] # "T") \/ (~Sat(a, c) /\ da[c] # "O")))
+       \* two deferred classes declared on one function (neither resolved when the methods were registered): each method
+       \* runs for the classes that satisfy its own type ("X" = the other deferred method ran)
+       ELSE IF "dispatch_both" \in DOMAIN Tab.rows[a] /\
+               \E c \in 1..NC : LET db == Tab.rows[a].dispatch_both IN
+                     (Sat(a, c) /\ db[c] \notin {"T", "AMB"}) \/ (~Sat(a, c) /\ db[c] = "T")
+            THEN "applicable_iff_sat.among_deferred.cls" \o ToString(CHOOSE c \in 1..NC :
+                     LET db == Tab.rows[a].dispatch_both IN
+                     (Sat(a, c) /\ db[c] \notin {"T", "AMB"}) \/ (~Sat(a, c) /\ db[c] = "T"))
        \* the union written A | B and handed over as it is (plain, and inside type[...]): the same answers
        ELSE IF "clssub_raw" \in DOMAIN Tab.rows[a] /\
                \E c \in 1..NC : Tab.rows[a].clssub_raw[c] # <<Sat(a, c), Sat(a, c)>>
